@@ -1,6 +1,6 @@
 /-
 Model of carquet's writer pipeline: src/writer/page_writer.c, column_writer.c,
-row_group_writer.c, file_writer.c (as of the fixes F2/F3/F17).
+row_group_writer.c, file_writer.c (as of the fixes F2/F3/F17/F60/F64).
 
 The byte-level components the pipeline calls (PLAIN, RLE levels, compression, CRC, Thrift
 headers and footer, statistics order) are taken as a parameter record `Deps`, instantiated in
@@ -50,14 +50,17 @@ def Col.maxRep (c : Col) : Nat := if c.rep = .repeated then 1 else 0
 BYTE_ARRAY: the content without length prefix) -/
 abbrev Val := Bytes
 
-/-- one `carquet_writer_write_batch(col, values, nrows, def_levels, NULL)` call.
-`defs = none` is a NULL def_levels pointer.  `vals` are the values the caller's array holds
-(the non-null ones, dense). -/
+/-- one `carquet_writer_write_batch(col, values, nrows, def_levels, rep_levels)` call.
+`nrows` is the `num_values` argument: the number of level ENTRIES (for a REQUIRED / OPTIONAL column
+that is the number of rows; for a REPEATED column every list element and every empty list is one
+entry).  `defs = none` is a NULL def_levels pointer, `reps = none` a NULL rep_levels pointer.
+`vals` are the values the caller's array holds (the non-null ones, dense). -/
 structure Batch where
   col : Nat
   nrows : Nat
   defs : Option (List Nat)
   vals : List Val
+  reps : Option (List Nat) := none
   deriving DecidableEq, Repr
 
 inductive Op where
@@ -125,7 +128,7 @@ structure Page where
   values : List Val := []       -- values of the page so far (dense), in order
   defs : List Nat := []         -- raw definition levels (only when maxDef > 0)
   reps : List Nat := []         -- raw repetition levels (only when maxRep > 0)
-  numValues : Nat := 0          -- rows
+  numValues : Nat := 0          -- level entries (rows of a non-repeated column)
   numNulls : Nat := 0
   minMax : Option (Val × Val) := none
   deriving Repr
@@ -197,7 +200,9 @@ def addValues (D : Deps) (c : Col) (p : Page) (b : Batch) : Page :=
     defs := if c.maxDef > 0 then p.defs ++ (match b.defs with
                                             | some ds => ds
                                             | none => List.replicate b.nrows c.maxDef) else p.defs,
-    reps := if c.maxRep > 0 then p.reps ++ List.replicate b.nrows 0 else p.reps,
+    reps := if c.maxRep > 0 then p.reps ++ (match b.reps with
+                                            | some rs => rs
+                                            | none => List.replicate b.nrows 0) else p.reps,
     numValues := p.numValues + b.nrows,
     numNulls := p.numNulls + (match b.defs with
                               | some _ => if c.maxDef > 0 then b.nrows - numNonNull c b else 0
@@ -307,8 +312,35 @@ def flushRowGroup (D : Deps) (w : W) : W × Status :=
 /-- replace element `i` of a list -/
 def setAt (l : List α) (i : Nat) (x : α) : List α := l.set i x
 
+/-- rows one batch of column 0 adds to the open row group (`carquet_writer_write_batch` after fix
+F64): with a rep_levels array and a REPEATED column, the entries with repetition level 0; otherwise
+`num_values` -/
+def batchRows (c : Col) (b : Batch) : Nat :=
+  match b.reps with
+  | some rs => if c.maxRep > 0 then (rs.filter (· == 0)).length else b.nrows
+  | none => b.nrows
+
 /-- `carquet_writer_write_batch` -/
 def writeBatch (D : Deps) (w : W) (b : Batch) : W × Status :=
+  match w.cols[b.col]? with
+  | none => (w, .invalidArgument)
+  | some c =>
+    match (ensureRowGroup (ensureHeader w)).rg with
+    | none => (w, .other)
+    | some cws =>
+      match cws[b.col]? with
+      | none => (w, .other)
+      | some cw =>
+        match colWriteBatch D w.codec (targetPageSize w) c cw b with
+        | none => (ensureRowGroup (ensureHeader w), .other)
+        | some cw' =>
+          ({ ensureRowGroup (ensureHeader w) with
+               rg := some (setAt cws b.col cw'),
+               rgRows := (ensureRowGroup (ensureHeader w)).rgRows + (if b.col = 0 then batchRows c b else 0) }, .ok)
+
+/-- the pinned code (before fix F64): `if (column_index == 0) current_row_group_rows += num_values`
+— the row count of a row group whose first column is REPEATED was its number of level entries -/
+def writeBatchPreFixF64 (D : Deps) (w : W) (b : Batch) : W × Status :=
   match w.cols[b.col]? with
   | none => (w, .invalidArgument)
   | some c =>
@@ -354,5 +386,21 @@ def writesOf (D : Deps) (cols : List Col) (codec pageSize : Nat) (createdBy : St
 def fileOf (D : Deps) (cols : List Col) (codec pageSize : Nat) (createdBy : String) (ops : List Op) :
     Bytes × List Status :=
   ((writesOf D cols codec pageSize createdBy ops).1.flatten, (writesOf D cols codec pageSize createdBy ops).2)
+
+/-! ### the pinned code before fix F64 (kept for the regression example `C05_regression_F64`) -/
+
+def stepPreFixF64 (D : Deps) (w : W) : Op → W × Status
+  | .batch b => writeBatchPreFixF64 D w b
+  | .newRowGroup => flushRowGroup D (ensureHeader w)
+
+def runPreFixF64 (D : Deps) (w : W) : List Op → List Status → List Bytes × List Status
+  | [], acc => ((close D w).1, acc ++ [(close D w).2])
+  | op :: ops, acc => runPreFixF64 D (stepPreFixF64 D w op).1 ops (acc ++ [(stepPreFixF64 D w op).2])
+
+/-- the file the pinned code (before F64) wrote -/
+def fileOfPreFixF64 (D : Deps) (cols : List Col) (codec pageSize : Nat) (createdBy : String) (ops : List Op) :
+    Bytes × List Status :=
+  ((runPreFixF64 D { cols := cols, codec := codec, pageSize := pageSize, createdBy := createdBy } ops []).1.flatten,
+   (runPreFixF64 D { cols := cols, codec := codec, pageSize := pageSize, createdBy := createdBy } ops []).2)
 
 end Carquet.Impl.Writer
